@@ -18,7 +18,9 @@ import (
 
 	"github.com/Oneledger/protocol/action"
 	ethact "github.com/Oneledger/protocol/action/eth"
+	onsact "github.com/Oneledger/protocol/action/ons"
 	"github.com/Oneledger/protocol/chains/ethereum/contract"
+	onsdata "github.com/Oneledger/protocol/data/ons"
 
 	"olverif/internal/boxcli"
 	"olverif/internal/gen"
@@ -172,6 +174,91 @@ func ethInputs(w *warm, rng *rand.Rand) []c18input {
 		}
 		n++
 		out = append(out, c18input{"ETH_REPORT_FINALITY_MINT.Locker", "nil-locker", txb.Tx(&ethact.ReportFinality{TrackerName: *tracker, Locker: nil, ValidatorAddress: v.ValAddr, VoteIndex: 0, Success: true}, txb.DefaultFee(), fmt.Sprintf("c18-rep-%d", n), gen.ConsAccount(v))})
+	}
+	return out
+}
+
+// signedFeeInputs: correctly signed transactions (two kinds) whose fee is hostile: the fee is part of the
+// signed content, so these pass the signature check and reach fee validation and fee charging.
+func signedFeeInputs(w *warm) []c18input {
+	var out []c18input
+	u := w.w.Users[0]
+	n := 0
+	big1 := new(big.Int).Lsh(big.NewInt(1), 200)
+	type fv struct {
+		trait string
+		cur   string
+		val   *big.Int
+		gas   int64
+	}
+	var fvs []fv
+	for _, cur := range []string{"", "VT", "ETH", "XYZ", "olt", " OLT"} {
+		for _, val := range []*big.Int{big.NewInt(1000000000), big.NewInt(0), big1} {
+			fvs = append(fvs, fv{fmt.Sprintf("currency=%q,price=%s", cur, cut(val.String(), 12)), cur, val, 400000})
+		}
+	}
+	for _, val := range []*big.Int{big.NewInt(0), big.NewInt(-1000000000), big1, new(big.Int).Neg(big1)} {
+		fvs = append(fvs, fv{"currency=OLT,price=" + cut(val.String(), 12), "OLT", val, 400000})
+	}
+	for _, gas := range []int64{0, -1, 1, 9223372036854775807, -9223372036854775808} {
+		fvs = append(fvs, fv{fmt.Sprintf("gas=%d", gas), "OLT", big.NewInt(1000000000), gas})
+	}
+	for _, f := range fvs {
+		fee := action.Fee{Price: action.Amount{Currency: f.cur, Value: *balanceAmount(f.val)}, Gas: f.gas}
+		n++
+		out = append(out, c18input{"SEND.<signed fee>", f.trait, txb.Tx(txb.Send(u.Addr, w.w.Users[1].Addr, "OLT", "5"), fee, fmt.Sprintf("c18-fee-%d", n), u)})
+		n++
+		out = append(out, c18input{"DOMAIN_CREATE.<signed fee>", f.trait, txb.Tx(&onsact.DomainCreate{Owner: u.Addr, Beneficiary: u.Addr, Name: onsdata.GetNameFromString(fmt.Sprintf("c18fee%d.ol", n)), BuyingPrice: txb.Amt("OLT", "1000000")}, fee, fmt.Sprintf("c18-fee-%d", n), u)})
+	}
+	return out
+}
+
+// truncationSweep: a genuine lock and a genuine redeem Ethereum transaction cut at every byte length (the
+// raw bytes, and the call data inside a re-signed transaction), carried by correctly signed lock/redeem
+// transactions of the four kinds.
+func truncationSweep(w *warm) []c18input {
+	var out []c18input
+	u := w.w.Users[0]
+	key, _ := ethcrypto.ToECDSA(ethcrypto.Keccak256([]byte("c18-trunc")))
+	sign := func(tx *types.Transaction) []byte {
+		s, err := types.SignTx(tx, types.NewEIP155Signer(big.NewInt(4)), key)
+		if err != nil {
+			return nil
+		}
+		b, _ := rlp.EncodeToBytes(s)
+		return b
+	}
+	n := 0
+	mk := func(msg action.Msg) []byte {
+		n++
+		return txb.Tx(msg, txb.DefaultFee(), fmt.Sprintf("c18-trunc-%d", n), u)
+	}
+	redeemData, _ := lockABI18.Pack("redeem", big.NewInt(5))
+	erc20ABI, _ := abi.JSON(strings.NewReader(contract.ERC20BasicABI))
+	transferData, _ := erc20ABI.Pack("transfer", w.w.EthContract, big.NewInt(77))
+	fullRedeem := sign(types.NewTransaction(7, w.w.EthContract, big.NewInt(0), 100000, big.NewInt(1), redeemData))
+	fullTransfer := sign(types.NewTransaction(8, w.w.EthContract, big.NewInt(0), 100000, big.NewInt(1), transferData))
+	ercABI, _ := abi.JSON(strings.NewReader(contract.LockRedeemERCABI))
+	ercRedeemData, _ := ercABI.Pack("redeem", big.NewInt(9), w.w.EthContract)
+	fullErcRedeem := sign(types.NewTransaction(11, w.w.EthContract, big.NewInt(0), 100000, big.NewInt(1), ercRedeemData))
+	add := func(trait string, raw []byte) {
+		out = append(out, c18input{"ETH_REDEEM.ETHTxn", trait, mk(&ethact.Redeem{Owner: u.Addr, To: ethcmn.Address{}, ETHTxn: raw})})
+		out = append(out, c18input{"ERC20_REDEEM.ETHTxn", trait, mk(&ethact.ERC20Redeem{Owner: u.Addr, To: ethcmn.Address{}, ETHTxn: raw})})
+		out = append(out, c18input{"ERC20_LOCK.ETHTxn", trait, mk(&ethact.ERC20Lock{Locker: u.Addr, ETHTxn: raw})})
+		out = append(out, c18input{"ETH_LOCK.ETHTxn", trait, mk(&ethact.Lock{Locker: u.Addr, ETHTxn: raw})})
+	}
+	for _, full := range []struct {
+		name string
+		raw  []byte
+		data []byte
+		nc   uint64
+	}{{"redeem", fullRedeem, redeemData, 9}, {"erc20-transfer", fullTransfer, transferData, 10}, {"erc20-redeem", fullErcRedeem, ercRedeemData, 12}} {
+		for l := 1; l < len(full.raw); l += 1 + l/48 {
+			add(fmt.Sprintf("%s-raw-cut-at-%d", full.name, l), full.raw[:l])
+		}
+		for l := 0; l < len(full.data); l += 1 + l/24 {
+			add(fmt.Sprintf("%s-calldata-cut-at-%d", full.name, l), sign(types.NewTransaction(full.nc, w.w.EthContract, big.NewInt(0), 100000, big.NewInt(1), full.data[:l])))
+		}
 	}
 	return out
 }
@@ -399,6 +486,10 @@ func checkC18(tier string) int {
 		}
 		inputs = append(inputs, ethInputs(wm, rng)...)
 		inputs = append(inputs, olvmInputs(wm)...)
+		inputs = append(inputs, signedFeeInputs(wm)...)
+		if wi == 0 || tier == "thorough" {
+			inputs = append(inputs, truncationSweep(wm)...)
+		}
 		if wi == 0 || tier == "thorough" {
 			inputs = append(inputs, rawInputs(rng, sample)...)
 		}
